@@ -800,7 +800,9 @@ func (a *sideEffectActor) resolveActors(c context.Context, t Transport, r []*url
 		// collections owned by peer servers.
 		act, more, err = a.dereferenceForResolvingInboxes(c, t, u)
 		if err != nil {
-			// Missing recipient -- skip.
+			// Missing recipient -- skip. Do not let its error leak out
+			// through the named result when it is the last one.
+			err = nil
 			continue
 		}
 		var recurActors []vocab.Type
